@@ -9,7 +9,7 @@ from ..gen import notebooks as N
 from ..gen import strategies as S
 from .. import mergeutil as M
 from .c01 import cli_env, _workdir
-from ..nbd import to_nb, reset_state
+from ..nbd import to_nb, reset_state, plain
 
 ID = "C04"
 LEVEL = "exploration"
@@ -246,7 +246,35 @@ def _type_change_vs_field_edit(case, f):
             if typ_side["cell_type"] != b["cell_type"] and other["cell_type"] == b["cell_type"] and all(
                     _field_changed(b, other, K, transients) for K in names):
                 return True
+    # the heuristics above follow ids, sources and positions; unrelated notebooks are aligned by the differ in its own way, so ask it:
+    # some base cell gets a cell_type change from one side and a change of the offending field(s) from the other
+    touched = {}
+    for side in ("local", "remote"):
+        touched[side] = _cell_keys_changed(case["base"], case[side])
+    for i in set(touched["local"]) & set(touched["remote"]):
+        for typ_side, other in (("local", "remote"), ("remote", "local")):
+            if "cell_type" in touched[typ_side][i] and "cell_type" not in touched[other][i] and all(K in touched[other][i] for K in names):
+                return True
     return False
+
+
+def _cell_keys_changed(base, other):
+    """{index of base cell: keys of that cell the differ reports as changed} for the cells the differ aligns between the two notebooks."""
+    import nbdime
+    reset_state()
+    try:
+        d = plain(nbdime.diff_notebooks(to_nb(base), to_nb(other)))
+    except Exception:
+        return {}
+    finally:
+        reset_state()
+    out = {}
+    for e in d:
+        if e.get("op") == "patch" and e.get("key") == "cells":
+            for ce in e["diff"]:
+                if ce.get("op") == "patch":
+                    out[ce["key"]] = {x.get("key") for x in ce["diff"]}
+    return out
 
 
 def _both_sides_change_cell_type(case, f):
